@@ -29,7 +29,7 @@ ASSUMPTIONS = ['normalisation: hex id suffixes renumbered by first appearance; c
                'circuit partbad: requests that include the part that cannot be transpiled are expected to be refused (G1, G1r, L on the top); '
                'its G3 uses the generator that served the refused requests']
 BOUNDS = {'quick': 'H = 4, six circuits (one of them partly untranspilable, one with a memory that the simulation steps fill) + circuit beh paired with a second circuit whose generation must be refused (four different transpiled classes, two instances of one of them with different constructor arguments, a parent-to-child forwarded Verilog parameter, combinational hierarchy with shared named modules, ModuloCounter, transpiled FSM + registers, a sub-block in its own named clock domain)',
-          'thorough': 'H = 5, same circuits'}
+          'thorough': 'H = 5 for the circuit pairs lanes/comb, comb/seq, beh/fsm, partbad/comb; H = 4 for the others'}
 
 OPS = ['G1', 'G1r', 'G2', 'G2f', 'G3', 'G4', 'Gx', 'L', 'P', 'S', 'M']
 MAXTASKS = 1        # every shard in a freshly forked process: class-level / module-level tables start pristine
@@ -500,6 +500,7 @@ def first_diff(a, b):
     return {'line': min(len(la), len(lb)), 'canonical_lines': len(la), 'got_lines': len(lb)}
 
 
+DEEP = {('lanes', 'comb'), ('comb', 'seq'), ('beh', 'fsm'), ('partbad', 'comb')}
 KINDS = [('lanes', 'comb'), ('comb', 'seq'), ('seq', 'fsm'), ('fsm', 'comb'), ('multiclk', 'comb'), ('beh', 'fsm'), ('beh', 'refuse'), ('partbad', 'comb')]
 
 
@@ -519,10 +520,12 @@ def shards(tier):
     for kind, kind2 in KINDS:
         canon_for(kind, kind2)
     out = []
-    pre = 2 if H > 4 else 1   # thorough: 121 prefixes per circuit
     for kind, kind2 in KINDS:
+        # thorough: depth 5 for four of the circuit pairs (121 prefixes each), depth 4 for the others
+        h = H if (tier != 'thorough' or (kind, kind2) in DEEP) else 4
+        pre = 2 if h > 4 else 1
         for prefix in itertools.product(OPS, repeat=pre):
-            out.append({'kind': kind, 'kind2': kind2, 'prefix': list(prefix), 'H': H})
+            out.append({'kind': kind, 'kind2': kind2, 'prefix': list(prefix), 'H': h})
     return out
 
 
